@@ -2,6 +2,7 @@ import Sebuf.DriverSchema
 import Sebuf.Mapping
 import Sebuf.WireEnc
 import Sebuf.GoDec
+import Sebuf.Call
 namespace Sebuf.Driver
 open Sebuf.Mapping
 
@@ -96,5 +97,14 @@ def opSpecEnc (j : Lean.Json) : Lean.Json :=
         ("impl_rt", match impl with | some i => decOutcome (GoDec.serverDec rq fuel m i) | none => Lean.Json.null),
         ("impl_dec_spec", decOutcome (GoDec.serverDec rq fuel m spec))]
     | _ => Lean.Json.mkObj [("driver_err", Lean.Json.str "value is not a message")]
+
+/-- which codec `marshalResponse` picks for a request Content-Type (regenerated switch table of the
+emitted server, `Gen.Pipeline.marshalResponseTable`), and whether its JSON branches consult the
+message's generated `MarshalJSON`. -/
+def opRespCodec (j : Lean.Json) : Lean.Json :=
+  let ct := String.ofList (getStr j "ct")
+  Lean.Json.mkObj [("codec", Lean.Json.str (Call.serverRespCodec ct)),
+    ("req_codec", Lean.Json.str (Call.serverReqCodec (if ct = "" then "application/json" else ct))),
+    ("custom_marshaler", Lean.Json.bool Gen.Pipeline.marshalResponseUsesCustomMarshaler)]
 
 end Sebuf.Driver
